@@ -6,6 +6,7 @@ import (
 	"fmt"
 	"strings"
 	"sync/atomic"
+	"unicode"
 
 	"google.golang.org/protobuf/encoding/protojson"
 	"google.golang.org/protobuf/proto"
@@ -104,7 +105,7 @@ func strings2(c *core.Ctx, alphabet []string, maxLen int, f func(s string)) int6
 }
 
 func run(c *core.Ctx) {
-	c.Rule = "outputs: every protojson.Marshal output of C20's enumeration (all option combinations) plus every string of <=2 symbols over an alphabet of all 32 control characters, DEL, quote, backslash, slash, 2/3/4-byte runes, U+2028 as StringValue, Struct key and Struct value must satisfy encoding/json.Valid AND an independent RFC 8259 recogniser, decode (encoding/json) to the original string, and Multiline/Indent output must decode to the same JSON value as compact output. inputs: every sequence of <=N tokens over {{ }} [ ] , : \"a\" \"b\" 1 true null space} and every character string of <=L over the number alphabet {- + 0 1 9 . e E}, the literal alphabet {t r u e f a l s n} and the string alphabet {\" \\\\ u 0 d 8 n / 0x1f 0x80 e-acute}, plus 12800 strings made of an escaped high surrogate followed by every pair of introducer bytes from {\\\\ u \" x U d 0 0x01 LF space}, 8 hex tails and 4 endings, embedded as a value in 10 contexts (Value, ListValue, Struct, unknown field with DiscardUnknown, typed int/double/string/repeated/map fields, DoubleValue): whatever Unmarshal accepts must be valid JSON by both recognisers"
+	c.Rule = "outputs: every protojson.Marshal output of C20's enumeration (all option combinations) plus every string of <=2 symbols over an alphabet of all 32 control characters, DEL, quote, backslash, slash, 2/3/4-byte runes, U+2028 as StringValue, Struct key and Struct value must satisfy encoding/json.Valid AND an independent RFC 8259 recogniser, decode (encoding/json) to the original string, and Multiline/Indent output must decode to the same JSON value as compact output. inputs: every character of unicode.IsSpace (plus NUL, 0x1c-0x1f, zero-width space, word joiner, BOM and lone 0x85 / 0xa0 / 0xc2 bytes) inserted at every gap between the tokens of three well-formed documents; every sequence of <=N tokens over {{ }} [ ] , : \"a\" \"b\" 1 true null space} and every character string of <=L over the number alphabet {- + 0 1 9 . e E}, the literal alphabet {t r u e f a l s n} and the string alphabet {\" \\\\ u 0 d 8 n / 0x1f 0x80 e-acute}, plus 12800 strings made of an escaped high surrogate followed by every pair of introducer bytes from {\\\\ u \" x U d 0 0x01 LF space}, 8 hex tails and 4 endings, embedded as a value in 10 contexts (Value, ListValue, Struct, unknown field with DiscardUnknown, typed int/double/string/repeated/map fields, DoubleValue): whatever Unmarshal accepts must be valid JSON by both recognisers"
 	c.Exhaustive = true
 	var nOut atomic.Int64
 	// ---- outputs
@@ -182,6 +183,35 @@ func run(c *core.Ctx) {
 	all := 1<<len(targets) - 1
 	tokAlpha := []string{"{", "}", "[", "]", ",", ":", `"a"`, `"b"`, "1", "true", "null", " "}
 	nTok := strings2(c, tokAlpha, core.Pick(c, 5, 7), func(s string) { nIn.Add(input(c, s, "tokens", 0b0000001111)) })
+	// whitespace: JSON allows exactly space, tab, LF and CR between tokens. Every
+	// character some library calls "space" (and a few neighbours) is inserted at every
+	// gap between the tokens of well-formed documents.
+	var nWs int64
+	{
+		var spaces []string
+		for r := rune(0); r <= 0x3000; r++ {
+			if unicode.IsSpace(r) || r == 0 || r >= 0x1c && r <= 0x1f || r == 0x200b || r == 0x2060 {
+				spaces = append(spaces, string(r))
+			}
+		}
+		spaces = append(spaces, "\ufeff", "\x85", "\xa0", "\xc2")
+		docs := [][]string{
+			{"{", `"a"`, ":", "1", ",", `"b"`, ":", "[", "true", ",", "null", "]", "}"},
+			{"[", "1", ",", "{", `"a"`, ":", `"b"`, "}", "]"},
+			{"{", "}"},
+		}
+		var list []string
+		for _, d := range docs {
+			for gap := 0; gap <= len(d); gap++ {
+				for _, sp := range spaces {
+					list = append(list, strings.Join(d[:gap], "")+sp+strings.Join(d[gap:], ""))
+				}
+			}
+		}
+		c.Par(len(list), func(i int) { nIn.Add(input(c, list[i], "whitespace", 0b0000001111)) })
+		nWs = int64(len(list))
+		c.Extra("whitespace_inputs", nWs)
+	}
 	numAlpha := []string{"-", "+", "0", "1", "9", ".", "e", "E"}
 	nNum := strings2(c, numAlpha, core.Pick(c, 6, 8), func(s string) { nIn.Add(input(c, s, "number", 0b1110111111)) })
 	// the same number strings quoted (quoted numbers are accepted by numeric fields)
@@ -211,7 +241,7 @@ func run(c *core.Ctx) {
 	}
 	_ = all
 	c.Eval(nIn.Load())
-	c.DistinctN(nTok + nNum + nNumQ + nLit + nStrIn + nSur)
+	c.DistinctN(nTok + nNum + nNumQ + nLit + nStrIn + nSur + nWs)
 	c.Bounds["surrogate_pair_strings"] = nSur
 	c.Bounds["token_sequences"] = nTok
 	c.Bounds["number_strings"] = nNum
